@@ -23,6 +23,13 @@
 (*            same adapter object); the expected                           *)
 (*            calls of the element's methods (log), what reaches a sink    *)
 (*            (FillInto) and what is returned are state.                   *)
+(* Wrap       puts the adapter object into a second adapter (no method     *)
+(*            name): the adapter object is itself an element, and what the *)
+(*            outer adapter, a Sequence or a FillSeq make of it is decided *)
+(*            by what it exposes (AdapterTable.Exposed) - its own          *)
+(*            interface, whatever the wrapped element can do.              *)
+(* InvokeOuter  probes the outer adapter (twice); the calls reach the      *)
+(*            element through the inner adapter.                           *)
 (* The declarative side (Usable + Precedence) is written from the          *)
 (* docstrings.                                                             *)
 (***************************************************************************)
@@ -30,15 +37,20 @@ EXTENDS AdapterTable, Json
 
 CONSTANTS FalsyAll, \* TRUE: falsy elements with every capability record; FALSE (quick tier): only those without
                     \* request and _can_break_flow
-          Tri      \* the method names that may also be "attr": present as a data attribute, not callable
+          Tri,     \* the method names that may also be "attr": present as a data attribute, not callable
+          Hides,   \* TRUE: an adapter object has the interface of its kind only (documented: adapters hide unused
+                   \* methods); FALSE: it lets the public attributes of the wrapped element through (must be rejected)
+          NestAll  \* TRUE: every accepted adapter is wrapped again; FALSE (both tiers; three-valued Tri in the thorough
+                   \* one): those around truthy elements without request and _can_break_flow
 
 StatesOf(x) == IF x \in Tri THEN {"no", "meth", "attr"} ELSE {"no", "meth"}
 Caps == [run : StatesOf("run"), fill : StatesOf("fill"), compute : StatesOf("compute"), request : StatesOf("request"),
          fill_into : StatesOf("fill_into"), m : StatesOf("m"), call : BOOLEAN, iter : BOOLEAN, cbf : BOOLEAN,
          truth : BOOLEAN]       \* truth value of the element (FALSE: __bool__ / __len__ make it falsy)
 
-VARIABLES adapter, caps, arg, phase, res, log, sink, ret, uses
-vars == <<adapter, caps, arg, phase, res, log, sink, ret, uses>>
+VARIABLES adapter, caps, arg, phase, res, log, sink, ret, uses,
+          outer, res2      \* the second adapter ("" = none) and its binding to the first
+vars == <<adapter, caps, arg, phase, res, log, sink, ret, uses, outer, res2>>
 
 (***************************************************************************)
 (* Machine.                                                                *)
@@ -46,15 +58,29 @@ vars == <<adapter, caps, arg, phase, res, log, sink, ret, uses>>
 Init == /\ adapter \in Adapters /\ caps \in Caps /\ arg \in ArgsOf(adapter)
         /\ (FalsyAll \/ caps.truth \/ (~caps.cbf /\ caps.request = "no"))
         /\ phase = "new" /\ res = Reject /\ log = <<>> /\ sink = <<>> /\ ret = <<>> /\ uses = 0
+        /\ outer = "" /\ res2 = Reject
 Construct == /\ phase = "new" /\ res' = Decide(adapter, caps, arg)
              /\ phase' = (IF res'.ok THEN "built" ELSE "rejected")
-             /\ UNCHANGED <<adapter, caps, arg, log, sink, ret, uses>>
+             /\ UNCHANGED <<adapter, caps, arg, log, sink, ret, uses, outer, res2>>
 \* the same adapter object is used twice: every use calls the bound method(s) again
 Invoke == /\ phase = "built" /\ uses < 2
           /\ LET e == Effect(adapter, res) IN log' = log \o e.log /\ sink' = sink \o e.sink /\ ret' = e.ret
           /\ uses' = uses + 1 /\ phase' = (IF uses' = 2 THEN "done" ELSE "built")
-          /\ UNCHANGED <<adapter, caps, arg, res>>
-Next == Construct \/ Invoke
+          /\ UNCHANGED <<adapter, caps, arg, res, outer, res2>>
+\* what the adapter object shows to whoever looks for methods on it
+Shown == Exposed(adapter, caps, Hides)
+Wrap == /\ phase = "built" /\ uses = 0 /\ arg # "none"
+        /\ (NestAll \/ (caps.truth /\ ~caps.cbf /\ caps.request = "no"))
+        /\ \E o \in Adapters : /\ Fits(o, adapter) /\ outer' = o
+                                /\ res2' = Decide(o, Shown, "default")
+                                /\ phase' = (IF res2'.ok THEN "built2" ELSE "rejected2")
+        /\ UNCHANGED <<adapter, caps, arg, res, log, sink, ret, uses>>
+InvokeOuter == /\ phase = "built2" /\ uses < 2
+               /\ LET e == NestedEffect(outer, res2, adapter, res) IN
+                     log' = log \o e.log /\ sink' = sink \o e.sink /\ ret' = e.ret
+               /\ uses' = uses + 1 /\ phase' = (IF uses' = 2 THEN "done2" ELSE "built2")
+               /\ UNCHANGED <<adapter, caps, arg, res, outer, res2>>
+Next == Construct \/ Invoke \/ Wrap \/ InvokeOuter
 Spec == Init /\ [][Next]_vars
 
 (***************************************************************************)
@@ -100,6 +126,30 @@ LogWithinCaps == phase = "done" => \A i \in 1..Len(log) :
    \/ log[i].n \in {"call", "iter", "function"} /\ (log[i].n = "call" => caps.call) /\ (log[i].n = "iter" => caps.iter)
    \/ log[i].n \in {"run", "fill", "compute", "request", "fill_into", "m"} /\ Has(caps, log[i].n)
 
+\* ---- adapter objects as elements
+Wrapped2 == phase \in {"built2", "rejected2", "done2"}
+\* the adapter object has the interface of its kind and nothing else, whatever it wraps: what a second adapter
+\* (hence a Sequence, a FillSeq, a Split) makes of it does not depend on the wrapped element
+HidesWrapped == Decided /\ res.ok => Shown = Interface(adapter)
+OuterIndependent == Wrapped2 => res2 = Decide(outer, Interface(adapter), "default")
+\* an adapter is accepted again by an adapter of its own kind, and a Call / FillCompute adapter is a Call / FillCompute
+\* element for Run and FillInto ("a Run element can be initialized from a Call or a FillCompute element")
+SameKindAccepted == (Wrapped2 /\ outer = adapter) => res2.ok
+CastsAsDocumented == Wrapped2 =>
+    /\ (outer = "Run" /\ adapter = "Call") => res2.bind = "call_per_value"
+    /\ (outer = "Run" /\ adapter = "FillCompute") => res2.bind = "fill_then_compute"
+    /\ (outer = "FillInto" /\ adapter = "Call") => res2.bind = "fill_call"
+    /\ (outer # adapter /\ <<outer, adapter>> \notin {<<"Run", "Call">>, <<"Run", "FillCompute">>, <<"FillInto", "Call">>,
+                                                       <<"Call", "SourceEl">>, <<"SourceEl", "Call">>}) => ~res2.ok
+\* through two adapters the element is asked for nothing but what the inner adapter is bound to
+OuterCallsBound == phase = "done2" => \A i \in 1..Len(log) : \E j \in 1..Len(Effect(adapter, res).log) :
+                                         log[i].n = Effect(adapter, res).log[j].n
+RepeatedUseOuter == phase = "done2" => LET e == NestedEffect(outer, res2, adapter, res) IN
+                  log = e.log \o e.log /\ sink = e.sink \o e.sink /\ ret = e.ret
+
+EmittedNest == (phase \in {"done2", "rejected2"}) =>
+   PrintT(ToJson([adapter |-> adapter, caps |-> caps, arg |-> arg, res |-> res, outer |-> outer, res2 |-> res2,
+                  shown |-> Interface(adapter), log |-> log, sink |-> sink, ret |-> ret]))
 Emitted == (phase \in {"done", "rejected"}) =>
    PrintT(ToJson([adapter |-> adapter, caps |-> caps, arg |-> arg, res |-> res, log |-> log, sink |-> sink, ret |-> ret]))
 =============================================================================
